@@ -211,7 +211,7 @@ func init() {
 				return
 			}
 			L := c06L
-			gap := x.Choose(2, "gap") // 0: socketpair lands above the reserved block; 1: the two lowest reserved numbers are freed for it
+			gap := x.Choose(2, "gap")      // 0: socketpair lands above the reserved block; 1: the two lowest reserved numbers are freed for it
 			execSel := x.Choose(4, "exec") // 3: the executable sits exactly on the first scratch number the launcher will use
 			vfork := x.Choose(2, "nonvfork") == 0
 			low := L.low
